@@ -23,6 +23,28 @@ def dconst(tyname):
     return ("V", "const", CD, (tyname,))
 
 
+def check_zeroize(ctx, cfg, rule="C19.Z"):
+    """zeroize hands exactly the N elements of self - every one, and nothing beyond them - to the element type's Zeroize."""
+    b = ctx.body(cfg, K_Z, rule)
+    if b is None:
+        return
+    a = ctx.analysis(cfg, K_Z)
+    N = self_len(a)
+    ok, det = visits_all(ctx, cfg, a, ("arg", 1), N, "zeroize::Zeroize::zeroize", "<core::slice::IterMut<", "<[")
+    if not ok:
+        # the view cut into pieces (split halves, chunks, a recursive helper): every return path's zeroize events tile the view exactly
+        from ..coverage import Coverage
+        cov = Coverage(ctx, cfg, "zeroize::Zeroize::zeroize", "<core::slice::IterMut<", "<[")
+        T_ = [x for x in b["impl_self"]["args"] if x.get("k") != "region"][0]
+        at_ = ctx.analysis_inl(cfg, K_Z, split=True, tag="cover")
+        ok2, det2 = cov.view_covered(at_, ("arg", 1), Poly.const(0), N, at_.tenv.size(T_), ())
+        if ok2:
+            ok, det = True, "the N-element view is cut into pieces and every piece is zeroized element-wise: " + det2 + ("; " + "; ".join(cov.notes) if cov.notes else "")
+        else:
+            det = det + " | as a partition: " + det2
+    ctx.ob(rule, K_Z, ok, det, at=b["at"], cfg=cfg)
+
+
 def check(ctx):
     ctx.explanation = EXPLANATION
     ctx.trusted = ["zeroize: <IterMut<'_, Z> as Zeroize>::zeroize zeroizes every yielded element", "const-default: [T; 0]: ConstDefault; rustc requires every field in a struct expression"]
@@ -32,24 +54,7 @@ def check(ctx):
     for cfg in cfgs:
         db = ctx.db(cfg)
         check_views(ctx, cfg)
-        # ---- zeroize
-        b = ctx.body(cfg, K_Z, "C19.Z")
-        if b is not None:
-            a = ctx.analysis(cfg, K_Z)
-            N = self_len(a)
-            ok, det = visits_all(ctx, cfg, a, ("arg", 1), N, "zeroize::Zeroize::zeroize", "<core::slice::IterMut<", "<[")
-            if not ok:
-                # the view cut into pieces (split halves, chunks, a recursive helper): every return path's zeroize events tile the view exactly
-                from ..coverage import Coverage
-                cov = Coverage(ctx, cfg, "zeroize::Zeroize::zeroize", "<core::slice::IterMut<", "<[")
-                T_ = [x for x in b["impl_self"]["args"] if x.get("k") != "region"][0]
-                at_ = ctx.analysis_inl(cfg, K_Z, split=True, tag="cover")
-                ok2, det2 = cov.view_covered(at_, ("arg", 1), Poly.const(0), N, at_.tenv.size(T_), ())
-                if ok2:
-                    ok, det = True, "the N-element view is cut into pieces and every piece is zeroized element-wise: " + det2 + ("; " + "; ".join(cov.notes) if cov.notes else "")
-                else:
-                    det = det + " | as a partition: " + det2
-            ctx.ob("C19.Z", K_Z, ok, det, at=b["at"], cfg=cfg)
+        check_zeroize(ctx, cfg)
         # ---- "and equals Default::default() where both exist": the run-time default is N copies of T::default() as well - Default is
         # generate(|_| T::default()) (or the collecting equivalent) and generate stores f(i) in slot i for every i (C08's rules, run here) - so the
         # two agree exactly when the element's two defaults do (an assumption about the element type)
